@@ -39,6 +39,17 @@ def _txt(toks: Sequence[Tok]) -> str:
     return " ".join(t for _, t in toks)
 
 
+class T1Mismatch(T1Error):
+    """the accessor methods of a message contradict the struct declared in the same file
+    (member that does not exist, index depth different from the array rank of the declared
+    field, scalar accessor on a message field or vice versa, two numbers for one member, a
+    member no accessor addresses): a concrete finding about the emitted text, not a parse gap"""
+
+    def __init__(self, where: str, issues: List[str]):
+        super().__init__(f"{where}: accessors contradict the declared struct: " + "; ".join(issues[:4]))
+        self.where, self.issues = where, issues
+
+
 class GoFile:
     def __init__(self, name: str, text: str):
         self.name = name                       # file base name without .go, e.g. main_bp
@@ -314,6 +325,41 @@ class GoT1:
             raise T1Error(f"{what}: trailing tokens in {_txt(toks)}")
         return e
 
+    def _accessors_vs_struct(self, f: GoFile, fields, refs) -> List[str]:
+        """Member names, index depth and scalar/message kind of every `case N:` of BpGetAccessor /
+        BpSetByte / BpGetByte / BpProcessInt against the struct declaration."""
+        decl: Dict[str, Tuple[int, bool, str]] = {}
+        for gname, ttoks, _tag in fields:
+            g, _ = self.gty(f, ttoks)
+            decl[gname] = (g.count("(GArr "), "GStruct" in g, _txt(ttoks))
+        issues: List[str] = []
+        by_num: Dict[int, set] = {}
+        by_member: Dict[str, set] = {}
+        for table, num, nm, depth in refs:
+            by_num.setdefault(num, set()).add(nm)
+            by_member.setdefault(nm, set()).add(num)
+            if nm not in decl:
+                issues.append(f"{table} case {num} refers to m.{nm}, which the struct does not declare "
+                              f"(declared: {', '.join(decl)})")
+                continue
+            rank, is_msg, ttxt = decl[nm]
+            if depth != rank:
+                issues.append(f"{table} case {num} indexes m.{nm} {depth} time(s) but the field is declared "
+                              f"`{ttxt}` with {rank} array dimension(s)")
+            if (table == "BpGetAccessor") != is_msg:
+                issues.append(f"{table} case {num} addresses m.{nm} declared `{ttxt}` "
+                              f"({'a message' if is_msg else 'not a message'})")
+        for num, nms in by_num.items():
+            if len(nms) > 1:
+                issues.append(f"case {num} refers to different members in different accessors: {sorted(nms)}")
+        for nm, nums in by_member.items():
+            if len(nums) > 1:
+                issues.append(f"member {nm} is addressed under several field numbers: {sorted(nums)}")
+        for nm in decl:
+            if nm not in by_member:
+                issues.append(f"struct field {nm} is addressed by no accessor")
+        return issues
+
     def message(self, f: GoFile, msg: str) -> Tuple[str, Dict[str, Any]]:
         decl = f.types.get(msg)
         if decl is None or decl[0] != "struct":
@@ -384,9 +430,11 @@ class GoT1:
         # ---- accessor tables
         name_of: Dict[int, str] = {}
 
-        def bind(num: int, nm: str, what: str) -> None:
-            if name_of.setdefault(num, nm) != nm:
-                raise T1Error(f"{what}: case {num} refers to m.{nm} but another table refers to m.{name_of[num]}")
+        refs: List[Tuple[str, int, str, int]] = []      # (table, case number, member, index depth)
+
+        def bind(num: int, nm: str, what: str, depth: int = 0) -> None:
+            refs.append((what.split(".")[-1].split(" ")[0], num, nm, depth))
+            name_of.setdefault(num, nm)
 
         accs = []
         cases, dflt = self._cases(self._method(f, msg, "BpGetAccessor", "di *bp.DataIndexer", "bp.Accessor"),
@@ -401,7 +449,7 @@ class GoT1:
             if not (e[0] == "un" and e[1] == "&" and e[2][0] == "paren"):
                 raise T1Error(f"{w}: not `return &(...)`: {unparse(e)}")
             nm, d = self._dataref(e[2][1], w)
-            bind(num, nm, w)
+            bind(num, nm, w, d)
             accs.append(f"({num}, {d}%nat)")
 
         sets = []
@@ -443,7 +491,7 @@ class GoT1:
             else:
                 raise T1Error(f"{w}: conversion {unparse(conv)}")
             g, _ = self.gty(f, ctoks)
-            bind(num, nm, w)
+            bind(num, nm, w, d)
             sets.append(f"({num}, {{| gs_depth := {d}%nat; gs_conv := {g}; gs_kind := {kind} |}})")
 
         gets = []
@@ -471,7 +519,7 @@ class GoT1:
                 kind = f"(GGBool {cbool(conv)})"
             else:
                 raise T1Error(f"{w}: unrecognised return expression {unparse(e)}")
-            bind(num, nm, w)
+            bind(num, nm, w, d)
             gets.append(f"({num}, {{| gg_depth := {d}%nat; gg_kind := {kind} |}})")
 
         ints = []
@@ -492,9 +540,13 @@ class GoT1:
             if parts[0] != parts[1]:
                 raise T1Error(f"{w}: the two shift statements differ: {_txt(sts[0])} / {_txt(sts[1])}")
             (nm, d), dist = parts[0]
-            bind(num, nm, w)
+            bind(num, nm, w, d)
             ints.append(f"({num}, {{| gi_depth := {d}%nat; gi_d := {cz(dist)} |}})")
 
+        # ---- the four accessors against the struct declared in the same file
+        issues = self._accessors_vs_struct(f, fields, refs)
+        if issues:
+            raise T1Mismatch(where, issues)
         # ---- struct: every field has exactly one number, every number one field
         num_of = {v: k for k, v in name_of.items()}
         if len(num_of) != len(name_of):
